@@ -57,6 +57,9 @@ Requirements:
    `git diff -- pony > patch.diff`, and `meta.txt` (3-6 lines: what the change is, what it needs in order to manifest,
    the commands you ran and their results: suite before/after, demo before/after).
 
+Do NOT use `git stash` (the stash is shared between all worktrees of this repository and other people work in sibling
+worktrees): to compare before/after use `git diff -- pony > patch.diff`, `git apply -R patch.diff`, `git apply patch.diff`.
+
 Report the same briefly as your final answer. If after honest effort you cannot find a change that keeps the suite green,
 say so and describe the closest attempt.
 """
